@@ -297,3 +297,44 @@ def _ior_post(st, interp, C, res):
 U_INDEX_OF_REFRACTION = [Unit("index_of_refraction[%s]" % m, XSF + ".index_of_refraction", _ior_inputs(m), _ior_post,
                               contracts={XSF + ".xray_sld": c_xray_sld}, inline={XSF + ".xray_wavelength"},
                               replay={"module": "c05", "task": "replay"}) for m in ("wavelength", "energy")]
+
+
+# ------------------------------------------------------------------------------ cromermann.fxrayatstol: symbol/charge -> table key
+# closed enumeration executed by the engine on the real body (concrete strings): every symbol spelling x charge
+
+CM = "periodictable.cromermann"
+
+
+def c_get_cmformula(interp, st, args, kw):
+    return VObj("CMF", {"key": args[0]})
+
+
+def c_atstol(interp, st, args, kw):
+    return VTuple(["f0-of", args[0].attrs["key"]])
+
+
+def _fx_unit(symbol, charge):
+    def mk(st, interp):
+        return [symbol, z3.Real("stol"), charge], {}, {}
+
+    def post(st, interp, C, res):
+        if res.outcome == "raise":
+            st.oblige("never-raises", False, kind="raises", info={"exc": res.exc})
+            return
+        base = symbol.rstrip("0123456789+-")
+        if charge is None:
+            tail = symbol[len(base):]
+            want = base + ("1" + tail if tail in ("+", "-") else tail)
+        elif charge == 0:
+            want = base
+        else:
+            want = base + "%d%s" % (abs(charge), "+" if charge > 0 else "-")
+        got = res.value.items[1] if isinstance(res.value, VTuple) else None
+        st.oblige("post.table key for (%r, charge=%r) is %r" % (symbol, charge, want), z3.BoolVal(got == want),
+                  info={"got": got})
+    return Unit("cromermann.fxrayatstol[%s,%s]" % (symbol, charge), CM + ".fxrayatstol", mk, post,
+                contracts={CM + ".getCMformula": c_get_cmformula, "CMF.atstol": c_atstol},
+                replay={"module": "c05", "task": "replay"})
+
+
+U_FXRAY_KEYS = [_fx_unit(s, q) for s in ("Fe", "O", "Cl-", "Ca2+", "H") for q in (None, 0, 1, 2, -1, -2, 3)]
